@@ -4,6 +4,8 @@
 //                 signer per input, CombinePSBTs, FinalizeAndExtractPSBT, txid equality and VerifyScript.
 //   t = "merge" : CombinePSBTs of the parts in every order (and of each part with itself) against the model's verdict and union;
 //                 serialize -> decode -> serialize of every part and of the result.
+//   t = "size"  : one map entry with a key / value at the width boundaries of the compact-size prefix, written by the harness's own
+//                 writer; decode, re-encode, decode.
 //   t = "raw"   : an input map assembled field by field in an order the serializer under test never produces; decode, re-encode,
 //                 decode again.
 // The model's records are turned into objects by Build*; objects are turned back into a canonical JSON dump by Project (every
@@ -676,12 +678,234 @@ std::string CheckRaw(const UniValue& row)
     return "";
 }
 
+
+// ---------------------------------------------------------------------------------------------------------------- t = "size"
+// The harness's own writer: nothing below uses the serializer under test to produce the entry.
+void PutCS(Bytes& out, uint64_t n)
+{
+    if (n < 253) out.push_back((unsigned char)n);
+    else if (n <= 0xffff) { out.push_back(253); out.push_back(n & 0xff); out.push_back((n >> 8) & 0xff); }
+    else { out.push_back(254); for (int i = 0; i < 4; ++i) out.push_back((n >> (8 * i)) & 0xff); }
+}
+void PutBytes(Bytes& out, const Bytes& b) { out.insert(out.end(), b.begin(), b.end()); }
+void PutLE32(Bytes& out, uint32_t v) { for (int i = 0; i < 4; ++i) out.push_back((v >> (8 * i)) & 0xff); }
+void PutLE64(Bytes& out, uint64_t v) { for (int i = 0; i < 8; ++i) out.push_back((v >> (8 * i)) & 0xff); }
+Bytes Fill(size_t n, unsigned salt) { Bytes b(n); for (size_t i = 0; i < n; ++i) b[i] = (unsigned char)(i * 7 + salt); return b; }
+uint256 NthHash(uint32_t i)
+{
+    // big-endian index in the first bytes: ascending i = ascending order of std::set<uint256>
+    Bytes b(32, 0x5a);
+    b[0] = (i >> 24) & 0xff; b[1] = (i >> 16) & 0xff; b[2] = (i >> 8) & 0xff; b[3] = i & 0xff;
+    return uint256(b);
+}
+KeyOriginInfo PathOrigin(size_t k)
+{
+    KeyOriginInfo o;
+    o.fingerprint = {9, 8, 7, 6};
+    for (size_t i = 0; i < k; ++i) o.path.push_back((uint32_t)(i * 3 + 1));
+    return o;
+}
+void PutOrigin(Bytes& out, const KeyOriginInfo& o)
+{
+    PutBytes(out, Bytes(o.fingerprint.begin(), o.fingerprint.end()));
+    for (uint32_t x : o.path) PutLE32(out, x);
+}
+// depths of a complete binary tree with c leaves, in DFS order
+std::vector<int> LeafDepths(size_t c)
+{
+    if (c == 1) return {0};
+    int d = 0;
+    while ((size_t{1} << d) < c) ++d;
+    const size_t a = (size_t{1} << d) - c;      // leaves one level up
+    std::vector<int> r(a, d - 1);
+    r.insert(r.end(), c - a, d);
+    return r;
+}
+
+std::string CheckSize(const UniValue& row)
+{
+    const int ver = row["ver"].getInt<int>();
+    const std::string sc = row["sc"].get_str(), cls = row["cls"].get_str();
+    const size_t n = (size_t)row["n"].getInt<int64_t>();
+    // the frame: one input, one output, empty maps
+    UniValue in(UniValue::VOBJ), out(UniValue::VOBJ), fj(UniValue::VOBJ), ins(UniValue::VARR), outs(UniValue::VARR);
+    in.pushKV("seq", ver == 0 ? "4294967294" : "none"); in.pushKV("t", "none"); in.pushKV("h", "none"); in.pushKV("f", UniValue(UniValue::VARR));
+    out.pushKV("f", UniValue(UniValue::VARR));
+    ins.push_back(in); outs.push_back(out);
+    fj.pushKV("ver", ver); fj.pushKV("txver", 2); fj.pushKV("tx", 1); fj.pushKV("fb", ver == 0 ? "1" : "none"); fj.pushKV("mod", 0);
+    fj.pushKV("g", UniValue(UniValue::VARR)); fj.pushKV("ins", ins); fj.pushKV("outs", outs);
+    PartiallySignedTransaction frame = Build(fj);
+    CMutableTransaction big_prev;   // nwutxo.script: the input must spend this transaction
+    if (cls == "nwutxo.script") {
+        big_prev.version = 2;
+        big_prev.vin.emplace_back(COutPoint(Txid::FromUint256(uint256{(uint8_t)0x55}), 3));
+        big_prev.vin[0].nSequence = 0xfffffffd;
+        big_prev.vout.emplace_back(123456, CScript());
+        const Bytes sb = Fill(n, 1);
+        big_prev.vout[0].scriptPubKey = CScript(sb.begin(), sb.end());
+        big_prev.nLockTime = 7;
+        CMutableTransaction sk = SkeletonTx(fj);
+        sk.vin[0].prevout = COutPoint(big_prev.GetHash(), 0);
+        frame = PartiallySignedTransaction(sk, (uint32_t)ver);
+        if (ver == 0) { frame.fallback_locktime = 1; frame.inputs[0].sequence = 4294967294u; } else { frame.fallback_locktime.reset(); frame.inputs[0].sequence.reset(); }
+    }
+    PartiallySignedTransaction expect = frame;
+    PSBTInput& ei = expect.inputs[0];
+    PSBTOutput& eo = expect.outputs[0];
+    Bytes key, val;
+    const CPubKey pk1 = PK(1);
+    const Bytes pkb(pk1.begin(), pk1.end());
+    const XOnlyPubKey xo1(pk1);
+    const Bytes xob(xo1.begin(), xo1.end());
+    auto script_of = [](const Bytes& b) { return CScript(b.begin(), b.end()); };
+
+    if (cls == "redeem" || cls == "wscript") {
+        const Bytes b = Fill(n, 2);
+        key = {(unsigned char)(sc == "i" ? (cls == "redeem" ? 0x04 : 0x05) : (cls == "redeem" ? 0x00 : 0x01))};
+        val = b;
+        if (sc == "i") (cls == "redeem" ? ei.redeem_script : ei.witness_script) = script_of(b);
+        else (cls == "redeem" ? eo.redeem_script : eo.witness_script) = script_of(b);
+    } else if (cls == "fsig") {
+        const Bytes b = Fill(n, 3);
+        key = {0x07}; val = b; ei.final_script_sig = script_of(b);
+    } else if (cls == "fwit.item") {
+        const Bytes a = Fill(n, 4), b{0x42};
+        key = {0x08}; PutCS(val, 2); PutCS(val, a.size()); PutBytes(val, a); PutCS(val, 1); PutBytes(val, b);
+        ei.final_script_witness.stack = {a, b};
+    } else if (cls == "fwit.count") {
+        key = {0x08}; PutCS(val, n);
+        for (size_t i = 0; i < n; ++i) { const Bytes it{(unsigned char)(i & 0xff)}; PutCS(val, 1); PutBytes(val, it); ei.final_script_witness.stack.push_back(it); }
+    } else if (cls == "sha.pre" || cls == "h256.pre") {
+        const Bytes h = Fill(32, 5), pre = Fill(n, 6);
+        key = {(unsigned char)(cls == "sha.pre" ? 0x0B : 0x0D)}; PutBytes(key, h); val = pre;
+        (cls == "sha.pre" ? ei.sha256_preimages : ei.hash256_preimages)[uint256(h)] = pre;
+    } else if (cls == "rip.pre" || cls == "h160.pre") {
+        const Bytes h = Fill(20, 7), pre = Fill(n, 8);
+        key = {(unsigned char)(cls == "rip.pre" ? 0x0A : 0x0C)}; PutBytes(key, h); val = pre;
+        (cls == "rip.pre" ? ei.ripemd160_preimages : ei.hash160_preimages)[uint160(h)] = pre;
+    } else if (cls == "wutxo.script") {
+        const Bytes b = Fill(n, 9);
+        key = {0x01}; PutLE64(val, 54321); PutCS(val, b.size()); PutBytes(val, b);
+        ei.witness_utxo = CTxOut(54321, script_of(b));
+    } else if (cls == "nwutxo.script") {
+        key = {0x00};
+        PutLE32(val, 2); PutCS(val, 1);
+        { const uint256 h{(uint8_t)0x55}; PutBytes(val, Bytes(h.begin(), h.end())); PutLE32(val, 3); PutCS(val, 0); PutLE32(val, 0xfffffffd); }
+        PutCS(val, 1); PutLE64(val, 123456); { const Bytes sb = Fill(n, 1); PutCS(val, sb.size()); PutBytes(val, sb); }
+        PutLE32(val, 7);
+        ei.non_witness_utxo = MakeTransactionRef(big_prev);
+    } else if (cls == "tapleaf.script") {
+        Bytes cb(33, 0x21); cb[0] = 0xc0;
+        const Bytes scr = Fill(n, 10);
+        key = {0x15}; PutBytes(key, cb); val = scr; val.push_back(0xc0);
+        ei.m_tap_scripts[{scr, 0xc0}].insert(cb);
+    } else if (cls == "tapleaf.cb") {
+        Bytes cb = Fill(33 + 32 * n, 11); cb[0] = 0xc0;
+        const Bytes scr{0x51};
+        key = {0x15}; PutBytes(key, cb); val = scr; val.push_back(0xc0);
+        ei.m_tap_scripts[{scr, 0xc0}].insert(cb);
+    } else if (cls == "tapbip32.hashes" || cls == "tapbip32.path") {
+        const size_t nh = cls == "tapbip32.hashes" ? n : 1, np = cls == "tapbip32.hashes" ? 1 : n;
+        std::set<uint256> hs;
+        key = {(unsigned char)(sc == "i" ? 0x16 : 0x07)}; PutBytes(key, xob);
+        PutCS(val, nh);
+        for (size_t i = 0; i < nh; ++i) { const uint256 h = NthHash((uint32_t)i); hs.insert(h); PutBytes(val, Bytes(h.begin(), h.end())); }
+        const KeyOriginInfo o = PathOrigin(np);
+        PutOrigin(val, o);
+        (sc == "i" ? ei.m_tap_bip32_paths : eo.m_tap_bip32_paths)[xo1] = {hs, o};
+    } else if (cls == "hd.path") {
+        const KeyOriginInfo o = PathOrigin(n);
+        key = {(unsigned char)(sc == "i" ? 0x06 : 0x02)}; PutBytes(key, pkb); PutOrigin(val, o);
+        (sc == "i" ? ei.hd_keypaths : eo.hd_keypaths)[pk1] = o;
+    } else if (cls == "xpub.path") {
+        CExtKey ek;
+        const Bytes seed(32, 0x31);
+        ek.SetSeed(MakeByteSpan(seed));
+        CExtPubKey xpub = ek.Neuter();
+        const unsigned char v4[4] = {0x04, 0x88, 0xB2, 0x1E};
+        std::copy(v4, v4 + 4, xpub.version);
+        // BIP32 serialization written by hand: version, depth, parent fingerprint, child number (big endian), chain code, key
+        key = {0x01}; PutBytes(key, Bytes(v4, v4 + 4)); key.push_back(xpub.nDepth); PutBytes(key, Bytes(xpub.fingerprint.begin(), xpub.fingerprint.end()));
+        for (int i = 3; i >= 0; --i) key.push_back((xpub.nChild >> (8 * i)) & 0xff);
+        PutBytes(key, Bytes(xpub.chaincode.begin(), xpub.chaincode.end())); PutBytes(key, Bytes(xpub.pubkey.begin(), xpub.pubkey.end()));
+        const KeyOriginInfo o = PathOrigin(n);
+        PutOrigin(val, o);
+        expect.m_xpubs[o].insert(xpub);
+    } else if (cls == "musigpart") {
+        std::vector<CPubKey> parts;
+        key = {(unsigned char)(sc == "i" ? 0x1a : 0x08)}; PutBytes(key, pkb);
+        for (size_t i = 0; i < n; ++i) { const CPubKey p = PK(2 + (int)(i % 5)); parts.push_back(p); PutBytes(val, Bytes(p.begin(), p.end())); }
+        (sc == "i" ? ei.m_musig2_participants : eo.m_musig2_participants)[pk1] = parts;
+    } else if (cls == "taptree.script") {
+        const Bytes scr = Fill(n, 12);
+        key = {0x06}; val = {0x00, 0xc0}; PutCS(val, scr.size()); PutBytes(val, scr);
+        eo.m_tap_tree = {{(uint8_t)0, (uint8_t)0xc0, scr}};
+    } else if (cls == "taptree.leaves") {
+        key = {0x06};
+        size_t i = 0;
+        for (int d : LeafDepths(n)) {
+            const Bytes scr{(unsigned char)(0x51 + (i++ % 16))};
+            val.push_back((unsigned char)d); val.push_back(0xc0); PutCS(val, 1); PutBytes(val, scr);
+            eo.m_tap_tree.emplace_back((uint8_t)d, (uint8_t)0xc0, scr);
+        }
+    } else if (cls == "prop.id" || cls == "prop.kd" || cls == "prop.val") {
+        PSBTProprietary pr;
+        pr.identifier = cls == "prop.id" ? Fill(n, 13) : Bytes{'v', 'f'};
+        pr.subtype = 3;
+        const Bytes kd = cls == "prop.kd" ? Fill(n, 14) : Bytes{0x01};
+        pr.value = cls == "prop.val" ? Fill(n, 15) : Bytes{0x09};
+        key = {0xFC}; PutCS(key, pr.identifier.size()); PutBytes(key, pr.identifier); PutCS(key, 3); PutBytes(key, kd);
+        pr.key = key; val = pr.value;
+        (sc == "i" ? ei.m_proprietary : sc == "o" ? eo.m_proprietary : expect.m_proprietary).insert(pr);
+    } else if (cls == "unk.key" || cls == "unk.val") {
+        key = cls == "unk.key" ? Fill(n, 16) : Bytes{0xF0, 0x77};
+        key[0] = 0xF0;
+        val = cls == "unk.val" ? Fill(n, 17) : Bytes{0x2a};
+        (sc == "i" ? ei.unknown : sc == "o" ? eo.unknown : expect.unknown)[key] = val;
+    } else {
+        return "harness: unknown size class " + cls;
+    }
+    // the specification's framing
+    Bytes entry;
+    PutCS(entry, key.size()); PutBytes(entry, key); PutCS(entry, val.size()); PutBytes(entry, val);
+    if ((int64_t)key.size() != row["keylen"].getInt<int64_t>() || (int64_t)val.size() != row["vallen"].getInt<int64_t>() || (int64_t)entry.size() != row["entry"].getInt<int64_t>()) {
+        return "assembled entry (key " + std::to_string(key.size()) + ", value " + std::to_string(val.size()) + ", entry " + std::to_string(entry.size()) + " bytes) does not have the lengths of the specification";
+    }
+    // splice the entry at the front of its map
+    const Bytes whole = Ser(frame);
+    const size_t in_len = SerIn(frame.inputs[0]).size();
+    Bytes out_bytes; { VectorWriter w{out_bytes, 0}; w << frame.outputs[0]; }
+    const size_t g_len = whole.size() - in_len - out_bytes.size();
+    const size_t at = sc == "g" ? 5 : sc == "i" ? g_len : g_len + in_len;
+    Bytes hand(whole.begin(), whole.begin() + at);
+    PutBytes(hand, entry);
+    hand.insert(hand.end(), whole.begin() + at, whole.end());
+    const std::string what = sc + "." + cls + " n=" + std::to_string(n) + " v" + std::to_string(ver);
+    auto d1 = DecodeRawPSBT(MakeByteSpan(hand));
+    if (!d1) return what + ": the decoder rejects the assembled encoding (" + util::ErrorString(d1).original + ")";
+    std::string d = Diff(Project(expect), Project(*d1), what + " decoded");
+    if (!d.empty()) return d.substr(0, 600);
+    const Bytes b2 = Ser(*d1);
+    if (b2.size() != hand.size()) return what + ": the re-encoding has " + std::to_string(b2.size()) + " bytes, the accepted encoding (same fields) has " + std::to_string(hand.size());
+    auto d2 = DecodeRawPSBT(MakeByteSpan(b2));
+    if (!d2) return what + ": the decoder rejects the re-encoding (" + util::ErrorString(d2).original + ")";
+    d = Diff(Project(*d1), Project(*d2), what + " re-encoded");
+    if (!d.empty()) return d.substr(0, 600);
+    if (Ser(*d2) != b2) return what + ": third encoding differs from the second";
+    if (Ser(expect) != b2) return what + ": the object built directly encodes differently from the decoded one";
+    if (ver == 0 && sc != "g" && b2 != hand) return what + ": re-encoding is not byte-identical to the accepted canonical encoding";
+    R().Count("size_roundtrips");
+    R().Count("size_class:" + sc + "." + cls);
+    return "";
+}
+
 std::string CheckRow(const UniValue& row)
 {
     const std::string t = row["t"].get_str();
     if (t == "lock") return CheckLock(row);
     if (t == "merge") return CheckMerge(row);
     if (t == "raw") return CheckRaw(row);
+    if (t == "size") return CheckSize(row);
     return "harness: unknown row type " + t;
 }
 
